@@ -194,3 +194,44 @@ func verifH_C10_recursive() {
 	_ = node.VisitJSON(v, FailFast())
 	verifReach("end")
 }
+
+//verif:harness id=C10 tier=quick,thorough witness=end depth=3000 bounds="schemas that contain themselves through a composition keyword only (A: allOf / anyOf / oneOf [A], A: not A, A: allOf [B], B: anyOf [A], with or without a type or a sibling branch) and pass the real Schema.Validate x value in {number, string, object, null}: validation returns (known finding: it recurses without bound)"
+func verifH_C10_composition_cycles() {
+	a := &Schema{}
+	self := &SchemaRef{Ref: "#/components/schemas/A", Value: a}
+	leaf := &SchemaRef{Value: &Schema{Type: &Types{"number"}}}
+	switch verifChoose("shape", 6) {
+	case 0:
+		a.AllOf = SchemaRefs{self}
+	case 1:
+		a.AnyOf = SchemaRefs{leaf, self}
+	case 2:
+		a.OneOf = SchemaRefs{self, leaf}
+	case 3:
+		a.Not = self
+	case 4:
+		b := &Schema{AnyOf: SchemaRefs{self}}
+		a.AllOf = SchemaRefs{{Ref: "#/components/schemas/B", Value: b}}
+	case 5:
+		a.Type = &Types{"object"}
+		a.AllOf = SchemaRefs{self}
+	}
+	if a.Validate(context.Background()) != nil {
+		return
+	}
+	var v any
+	switch verifChoose("value", 4) {
+	case 0:
+		v = 1.0
+	case 1:
+		v = "s"
+	case 2:
+		v = map[string]any{"k": 1.0}
+	}
+	// known finding: a schema reached again through composition keywords alone is evaluated again on the same value, without end
+	verifKnown("C10-composition-cycle-unbounded-recursion", true)
+	_ = a.VisitJSON(v)
+	_ = a.VisitJSON(v, MultiErrors())
+	_ = a.IsMatching(v)
+	verifReach("end")
+}
